@@ -121,6 +121,15 @@ Section C04.
     apply exact_other_message. exact (proj1 (build_facts Hash AES Hash_len AES_len AES_wf0 _ _ _ _ _ _ _ HB)).
   Qed.
 
+  (* only configurations within the size rules yield a MAC object *)
+  Theorem C04_accepted_configurations :
+    forall p a key tag v id P, build Hash AES p a key tag v id = Built P ->
+    match a with
+    | AHmac h => exists ha, h = Some ha /\ (10 <= tag <= digest_size ha)%nat /\ (16 <= length key)%nat
+    | ACmac => (10 <= tag <= 16)%nat /\ (length key = 16 \/ length key = 24 \/ length key = 32)%nat
+    end.
+  Proof. exact (build_sizes Hash AES Hash_len AES_len AES_wf0). Qed.
+
   (* A keyset of several MAC keys through mac.New: the primary's standard tag
      is produced, and exactly the standard tags of the keys of the keyset are accepted. *)
   Theorem C04_keyset_mac :
@@ -140,6 +149,7 @@ Print Assumptions C04_verify_iff_tag_eq_compute.
 Print Assumptions C04_tag_length.
 Print Assumptions C04_mutated_tags_rejected.
 Print Assumptions C04_modified_message_rejected_unless_same_tag.
+Print Assumptions C04_accepted_configurations.
 Print Assumptions C04_keyset_mac.
 
 (* wrappedMAC over arbitrary exact primitives: accepted = longer than 5 bytes
